@@ -239,6 +239,10 @@ class SeriesOps:
         sel = g.sel
         if name in ("agg", "aggregate"):
             spec = pos[0] if pos else kw.get("func")
+            # named aggregation: agg(out=("col", fn), ...)
+            named = {k: v for k, v in kw.items() if isinstance(v, PyTuple) and len(v.items) == 2 and isinstance(v.items[0], str)}
+            if spec is None and named and len(named) == len(kw):
+                return mk({out: T.agg(str(v.items[1]) if isinstance(v.items[1], str) else T.show(to_term(v.items[1])), f.col(v.items[0]), ctx, keyterms) for out, v in named.items()})
             if isinstance(spec, dict):
                 cols = {}
                 for c, fn in spec.items():
@@ -468,6 +472,15 @@ class SeriesOps:
             return g
         if isinstance(data, Frame):
             return data.derive()
+        if isinstance(data, dict) and data and all(isinstance(v, Ser) and v.frame is not None for v in data.values()) and all(isinstance(k, str) for k in data) \
+                and len({(v.ctx, v.frame.obj) for v in data.values()}) == 1 and "index" not in kw:
+            src = next(iter(data.values())).frame          # columns computed from ONE frame: same rows, same index, the given names
+            g = src.derive(known=[])
+            g.cols, g.dropped, g.resolver = {}, set(), None
+            for k, v in data.items():
+                g.setcol(k, v.term)
+            self.log("frame-from-columns", node, src=src.obj, dst=g.obj, cols=list(data))
+            return g
         if isinstance(data, dict):
             g = Frame(base, known=[])
             for k, v in data.items():
